@@ -29,6 +29,13 @@ theorem bulkValidate_uninitialised (s : Store) (rel : String) (h : Handle) :
       · subst h0; simp [bulkLook] at hl
       · exact bulkValidate_uninitialised s rel h ts l' h1
 
+/-- … conversely: a vector that is accepted holds initialised entities only -/
+theorem bulkValidate_ok_all_initialised (s : Store) (rel : String) (h : Handle) (ts : List (Option Handle)) (objs : List ObjId)
+    (hv : bulkValidate s rel h [] ts = .ok objs) : none ∉ ts := by
+  intro hm
+  obtain ⟨e, he⟩ := bulkValidate_uninitialised s rel h ts [] hm
+  rw [he] at hv; cases hv
+
 theorem setLinks_uninitialised_no_trace (s : Store) (rel : String) (h : Handle) (targets : List (Option Handle))
     (hm : none ∈ targets) : ∃ e, setLinks s rel h targets = (s, .error e) := by
   obtain ⟨e, he⟩ := bulkValidate_uninitialised s rel h targets [] hm
